@@ -3,6 +3,7 @@ from . import q
 from .cfg import DefUse, origins
 from .effects import counter_effects, writes_of, accesses_of
 from .facts import op_const_int
+from .expr import expr, show, mentions
 from .pdom import unexcused_path, excused_edges
 from .shared import rcb_alias, sched_after
 from .usercalls import user_calls
@@ -362,9 +363,54 @@ def pdom_sched(ctx, prog, R="C14.PDOM-sched"):
     ctx.floor(R, n, 6)
 
 
+def pdom_link_callback(ctx, prog):
+    R = "C14.PDOM-link-callback"
+    ctx.rule(R, "linking a child to a parent (add_parent_without_adjusting_heights) consults the parent's kind on "
+                "every path and runs the expert edge callback of the new edge whenever the parent is an expert node - "
+                "also when the child only just became necessary (it may hold a current value and never recompute)")
+    F = ctx.need_fn(R, q.NODE_IMPL + "add_parent_without_adjusting_heights")
+    if F is None:
+        return
+    du = DefUse(F)
+    c = F.cfg()
+    calls = q.calls_in(F, "ExpertNode::run_edge_callback")
+    if not calls:
+        ctx.missing(R, "run_edge_callback call")
+        return
+    # switches on kind(parent): Option discriminant and Kind discriminant
+    ksw = []
+    for b in F.blocks:
+        t = b["term"]
+        if t["k"] == "switch":
+            e = expr(F, t["on"], du)
+            if e[0] == "discr" and mentions(e, lambda x: x[0] == "call" and x[1].endswith("Node::kind") and x[2] == (("arg", 3),)):
+                ksw.append(b["id"])
+    ctx.site(R, F, "kind(parent) switches %s; run_edge_callback %s" % (ksw, [t.bb for t in calls]))
+    if not ksw:
+        ctx.fail(R, "link-callback", "the edge callback is not selected by the parent's kind", fn=F, kind="anchor")
+        return
+    p = c.path([0], c.exits, avoid=set(ksw))
+    if p is not None:
+        ctx.fail(R, "link-callback", "a path links the child without looking at the parent's kind, so an expert parent "
+                 "never gets the on_change callback of this new dependency (e.g. a child that just became necessary but "
+                 "already has an up-to-date value)", fn=F, path=q.fmt_path(F, p))
+        return
+    # on the Expert arm the call is unconditional
+    ctrl = [s_ for s_, can in c.controlling_switches(calls[0].bb) if s_ not in ksw]
+    extra = []
+    for s_ in ctrl:
+        e = expr(F, F.blocks[s_]["term"]["on"], du)
+        extra.append(show(e)[:60])
+    if extra:
+        ctx.fail(R, "link-callback", "run_edge_callback on the new edge is additionally conditioned on %s" % extra, fn=F,
+                 span=calls[0].span)
+    else:
+        ctx.ok(R, "link-callback")
+
+
 for _f, _id in ((sign_invalid_children, "C14.SIGN-invalid-children"), (prov_edge_owner, "C14.PROV-edge-owner"),
                 (guard_value, "C14.GUARD-value"), (rcb_swap, "C14.RCB-swap"), (dtab_latch, "C14.DTAB-latch"),
-                (pdom_sched, "C14.PDOM-sched")):
+                (pdom_sched, "C14.PDOM-sched"), (pdom_link_callback, "C14.PDOM-link-callback")):
     _f.rule_id = _id
 
-RULES = [sign_invalid_children, prov_edge_owner, guard_value, rcb_swap, dtab_latch, pdom_sched]
+RULES = [sign_invalid_children, prov_edge_owner, guard_value, rcb_swap, dtab_latch, pdom_sched, pdom_link_callback]
